@@ -328,6 +328,8 @@ func sortStringsByName(a []string) {
 // GenTopLevel: the progen generator used at top level: helper declarations, then statements
 func GenTopLevel(r *RNG, depth int) (stmts []string, globals []string, feat map[string]bool) {
 	g := &PG{r: r, budget: 30, feat: map[string]bool{}}
+	g.w("const KA = 7\n")
+	g.w("const KB = KA*2 + 1\n")
 	g.w("var fuel = 80\n")
 	g.w("type T struct {\n\tA int\n\tB int\n}\n")
 	g.w("func (t *T) Sum(k int) int {\n\treturn t.A + t.B*k\n}\n")
